@@ -1293,6 +1293,26 @@ Theorem context_nearest_ancestor : forall c o ty, wfp c -> o < length (owners c)
   nearest c ty o (use_ctx c o ty).
 Proof. intros c o ty Wp Hlt. apply lookup_nearest; auto. Qed.
 
+(** [take_context] / [update_context] act on the owner that holds the binding [use_context]
+    returns: the value found there is the looked-up value *)
+Definition ctx_at (c : core) (p : nat) (ty : nat) : option Z :=
+  match nth_error (owners c) p with Some ow => assoc ty (o_ctx ow) | None => None end.
+
+Lemma lookup_owner_ctx : forall fuel c o ty,
+  lookup_ctx fuel c o ty = match lookup_owner fuel c o ty with Some p => ctx_at c p ty | None => None end.
+Proof.
+  induction fuel as [|f IH]; intros c o ty; cbn [lookup_ctx lookup_owner]; [reflexivity|].
+  destruct (nth_error (owners c) o) as [ow|] eqn:Ho; [|reflexivity].
+  destruct (assoc ty (o_ctx ow)) as [v|] eqn:Ha.
+  - unfold ctx_at. rewrite Ho. symmetry. exact Ha.
+  - destruct (o_parent ow) as [p|]; [|reflexivity].
+    destruct (alive c p); [apply IH|reflexivity].
+Qed.
+
+Theorem provider_holds_binding : forall c o ty,
+  use_ctx c o ty = match provider c o ty with Some p => ctx_at c p ty | None => None end.
+Proof. intros. apply lookup_owner_ctx. Qed.
+
 (** [nearest] is a function: the answer is determined by the ancestor chain *)
 Lemma nearest_fun c ty o r1 r2 : nearest c ty o r1 -> nearest c ty o r2 -> r1 = r2.
 Proof.
@@ -2035,7 +2055,7 @@ Qed.
 Lemma exec_stmt_ok : forall st cur s, cur < length (owners (b_core s)) -> bstep_ok s (exec_stmt cur st s).
 Proof.
   fix IH 1. intros st cur s Hcur.
-  destruct st as [| |kind| |ty v|ty|b|b|b|b|b]; cbn [exec_stmt].
+  destruct st as [| |kind| |ty v|ty|ty|ty v|b|b|b|b|b]; cbn [exec_stmt].
   - pose proof (cstep_alloc cur (IVal (length (handles s))) (b_core s) (fun _ => I)) as H.
     destruct (alloc cur (IVal (length (handles s))) (b_core s)) as [k c]. cbn [snd] in H.
     split; [exact H|]. apply bwf_grow; auto. destruct H as (_ & _ & H). exact H.
@@ -2048,6 +2068,13 @@ Proof.
   - apply bstep_core, cstep_reg.
   - apply bstep_core, cstep_skel, skel_provide.
   - apply blog_ok. reflexivity.
+  - eapply bstep_trans; [|apply blog_ok; reflexivity].
+    apply bstep_core, cstep_skel. unfold take_ctx.
+    destruct (provider (b_core s) cur ty); [|apply skel_refl].
+    apply skel_upd_owner. intros a. repeat split.
+  - eapply bstep_trans; [|apply blog_ok; reflexivity].
+    apply bstep_core, cstep_skel. unfold update_ctx.
+    destruct (provider (b_core s) cur ty); [apply skel_provide|apply skel_refl].
   - pose proof (cstep_new_owner (Some cur) (b_core s)) as H.
     pose proof (new_owner_len (Some cur) (b_core s)) as Hl.
     assert (Ho : fst (new_owner (Some cur) (b_core s)) = length (owners (b_core s))) by reflexivity.
@@ -2261,6 +2288,8 @@ Proof.
   - destruct (nth_error (memos s) m); [apply bstep_core, cstep_exec|apply bstep_refl].
   - destruct (nth_error (effs s) e) as [ef|]; [|apply bstep_refl].
     destruct (e_render ef); [apply set_eff_ok; reflexivity|apply bstep_core, cstep_exec].
+  - destruct (nth_error (effs s) e) as [ef|]; [|apply bstep_refl].
+    destruct (e_render ef); [apply bstep_refl|apply set_eff_ok; reflexivity].
   - destruct (nth_error (imms s) i) as [m|] eqn:Hm; [|apply bstep_refl].
     destruct (i_held m && negb (paused (b_core s) (i_owner m))); [|apply bstep_refl].
     set (s1 := set_core s (cleanup (i_owner m) (b_core s))).
@@ -2318,6 +2347,14 @@ Qed.
 Definition final_core (b : list stmt) (ops : list op) : core := b_core (run_ops (start b) ops).
 
 (** over any history no cleanup runs twice *)
+Theorem r_provider : forall b ops o ty,
+  use_ctx (final_core b ops) o ty =
+  match provider (final_core b ops) o ty with
+  | Some p => ctx_at (final_core b ops) p ty
+  | None => None
+  end.
+Proof. intros. apply provider_holds_binding. Qed.
+
 Theorem cleanup_never_twice : forall b ops, NoDup (cids (clog (final_core b ops))).
 Proof.
   intros b ops. destruct (reachable_good b ops) as [I _]. eapply NoDup_app_l. exact (ci_nd _ I).
@@ -2526,4 +2563,26 @@ Example ex_raw_items :
   arena_len c1 = 3 /\ contains c1 (2, 1) = true /\
   arena_len c2 = 5 /\ contains c2 (2, 1) = false /\ contains c2 (2, 3) = true /\
   arena_len c3 = 0 /\ contains c3 (0, 1) = false /\ err c3 = false /\ unowned c3 = false.
+Proof. vm_compute. repeat split. Qed.
+
+(** the other context entry points: take_context removes the nearest binding (the next lookup goes
+    further up), update_context replaces it in place *)
+Example ex_take_update :
+  let b := [SProvide 0 7; SChild [SProvide 0 8; SChild [SUse 0; STake 0; SUse 0; SUpdate 0 9; SUse 0; STake 1]]] in
+  let c := final_core b [] in
+  map (fun l => match l with LUse _ r => r | _ => None end) (rev (clog c)) =
+    [Some 8%Z; Some 8%Z; Some 7%Z; Some 7%Z; Some 9%Z; None] /\
+  use_ctx c 1 0 = Some 9%Z /\ provider c 2 0 = Some 0.
+Proof. vm_compute. repeat split. Qed.
+
+(** Effect::stop: the stopped effect's task ends at its next poll (dropping its scope) although
+    its arena entry is still there; the entry goes with the scope that created the effect *)
+Example ex_stop :
+  let b := [SChild [SEffect [SOnCleanup; SNewStored]]] in
+  let c1 := final_core b [RunAll []; StopEffect 0] in
+  let c2 := final_core b [RunAll []; StopEffect 0; NotifyEffect 0; RunAll []] in
+  let c3 := final_core b [RunAll []; StopEffect 0; RunAll []; Cleanup 1] in
+  arena_len c1 = 2 /\ cids (clog c1) = [] /\
+  arena_len c2 = 1 /\ cids (clog c2) = [0] /\ alive c2 2 = false /\
+  arena_len c3 = 0.
 Proof. vm_compute. repeat split. Qed.
